@@ -141,6 +141,7 @@ type Res struct {
 	Alias bool     `json:"al,omitempty"`  // seed2: backing arrays overlap
 	B     *bool    `json:"b,omitempty"`
 	Err   *ErrInfo `json:"err,omitempty"`
+	Err2  *ErrInfo `json:"err2,omitempty"` // encchk / newchk: CheckMnemonic's verdict on the generator's own output
 	Panic string   `json:"panic,omitempty"`
 	IA    string   `json:"ia,omitempty"` // caller-owned entropy buffer after the call: hex, or "sha256:<hex>" when longer than 64 bytes
 	Reads []ReadEv `json:"rd,omitempty"`
